@@ -374,6 +374,9 @@ def tie_env(ctx: Ctx, scratch: str) -> None:
     # ---- genargs
     tie_genargs(ctx, add, scratch)
 
+    # ---- addargs: histories of add_project_arguments / add_global_arguments / … calls
+    tie_addargs(ctx, add)
+
     ctx.count(len(lines))
     if not ctx.model_available:
         return
@@ -407,7 +410,7 @@ def tie_env(ctx: Ctx, scratch: str) -> None:
             continue
         if ans != m:
             ctx.disagreement({'kind': kind, 'input': inp, 'impl': ans, 'model': m})
-        elif kind in ('envget', 'genargs', 'envtest'):
+        elif kind in ('envget', 'genargs', 'envtest', 'addargs'):
             ctx.seen_nontrivial((kind, repr(inp)))
     ctx.extra['env_util_validated_against_env1'] = ui
 
@@ -650,3 +653,56 @@ def replay_case(ctx: Ctx, case: dict) -> bool:
               'replay file; the genargs stream regenerates this case)')
         return True
     return False
+
+
+# ---------------------------------------------------------------- the global / project argument API
+
+PAIRED = ['-include', '-Xlinker', '-Xclang', '-framework', '-isystem', '-Xpreprocessor', '-imacros']
+DEDUP_DOCUMENTED = ('-D', '-U', '-I', '-L', '-l', '-isystem', '-Wl,-l', '-pthread', '-pipe')
+PLAIN = ['-DX=1', '-DX=1', '-Ia', '-pthread', '-fmv', '-Wl,--x', '-la', 'a.h', 'b.h', '--opt', '', '-O2', 'a b', "it's"]
+
+
+def tie_addargs(ctx: Ctx, add) -> None:
+    """real Interpreter._add_arguments (the tail shared by add_project_arguments, add_global_arguments, the link variants
+    and add_project_dependencies) over call histories in which later batches repeat strings of earlier ones"""
+    from mesonbuild.interpreter import interpreter as I
+    rng = ctx.rng
+    node = types.SimpleNamespace(func_name=types.SimpleNamespace(value='add_project_arguments'))
+    fake = types.SimpleNamespace(_warn_about_builtin_args=lambda args: None)
+    LANGS = ['c', 'cpp', 'objc']
+    for _ in range(ctx.scale(2500, 30000)):
+        hist = []
+        for _c in range(rng.randint(1, 5)):
+            batch: T.List[str] = []
+            for _a in range(rng.randint(0, 3)):
+                if rng.random() < 0.5:
+                    batch += [rng.choice(PAIRED[:3] if rng.random() < 0.7 else PAIRED), rng.choice(['a.h', 'b.h', '--opt', rand_string(rng, 3).replace('\0', '')])]
+                else:
+                    batch.append(rng.choice(PLAIN))
+            langs = rng.sample(LANGS, rng.randint(1, 2))
+            hist.append((langs, batch))
+        d: T.Dict[str, T.List[str]] = {}
+
+        def run_impl():
+            for langs, batch in hist:
+                I.Interpreter._add_arguments(fake, node, d, False, list(batch), {'language': list(langs)})
+            return d
+        lang = rng.choice(LANGS)
+        try:
+            real: T.Any = list(run_impl().get(lang, []))
+            ans = lenc(real)
+        except Exception as e:      # noqa: BLE001
+            real = f'raised {type(e).__name__}: {e}'
+            ans = f'IMPL-SHAPE:_add_arguments:{type(e).__name__}:{str(e)[:80]}'
+        add('addargs', (hist, lang), 'addargs ' + ';'.join(lenc(l) for l, _b in hist) + '|' + ';'.join(lenc(b) for _l, b in hist) +
+            '|' + enc(lang), ans)
+        ctx.count()
+        want = [a for langs, batch in hist if lang in langs for a in batch]
+        # strings CompilerArgs documents as de-duplicated later on (C13) are not counted here: the property does not
+        # promise their multiplicity
+        keep = lambda l: [a for a in l if not a.startswith(DEDUP_DOCUMENTED)] if isinstance(l, list) else l
+        if keep(real) != keep(want):
+            ctx.violation(f'add-arguments-history:{hist!r}:{lang}'.replace(' ', '␣'),
+                          f'after these add_*_arguments calls the arguments stored for language {lang!r} are {real!r}; the calls '
+                          f'specify {want!r} (same strings, same count, same order)',
+                          {'history': hist, 'language': lang, 'position': None})
